@@ -316,6 +316,16 @@ func (x *vc) typeIDByName(fr *frame, name string) int {
 }
 
 func (x *vc) lookupType(pkg *types.Package, name string) types.Type {
+	name = strings.TrimSpace(name)
+	if name == "interface {}" || name == "interface{}" || name == "any" {
+		return types.NewInterfaceType(nil, nil)
+	}
+	if strings.HasPrefix(name, "[]") {
+		if et := x.lookupType(pkg, name[2:]); et != nil {
+			return types.NewSlice(et)
+		}
+		return nil
+	}
 	ptr := false
 	if strings.HasPrefix(name, "*") {
 		ptr = true
@@ -490,6 +500,7 @@ func (x *vc) execInstr(fr *frame, st *state, instr ssa.Instruction) {
 		v := x.value(fr, st, in.Value)
 		x.check(st, "nil", "mapupdate", not(eq(m.T, "0")), pos, "assignment to entry in nil map")
 		mt := in.Map.Type().Underlying().(*types.Map)
+		x.hashableKey(st, mt, k, pos)
 		d, va, l := x.mapArrs(st, mt)
 		had := app("select", app("select", st.heap[d], m.T), k.T)
 		newLen := ite(had, app("select", st.heap[l], m.T), app("+", app("select", st.heap[l], m.T), "1"))
@@ -506,6 +517,7 @@ func (x *vc) execInstr(fr *frame, st *state, instr ssa.Instruction) {
 			fr.vals[in] = x.freshVal("lookup", in.Type(), st)
 			break
 		}
+		x.hashableKey(st, mt, k, pos)
 		d, va, _ := x.mapArrs(st, mt)
 		has := and(not(eq(m.T, "0")), app("select", app("select", st.heap[d], m.T), k.T))
 		val := ite(has, app("select", app("select", st.heap[va], m.T), k.T), x.srt.zero(mt.Elem()))
